@@ -70,6 +70,11 @@ func drawC05Outcome(e *Env, v primitive.ProtocolVersion) world.OutcomeSpec {
 		}
 		return fin[c.Choose("final", len(fin))]
 	default:
+		if c.Choose("hang?", 4) == 3 {
+			// the host hangs: nothing is answered on that connection any more, the proxy closes it
+			// itself once heartbeats have gone unanswered for the idle timeout
+			return world.OutcomeSpec{Outcome: world.Outcome{Kind: world.OutHang, Name: "hang"}, Class: world.ClsConnLoss}
+		}
 		if c.Choose("dropkind", 2) == 0 {
 			return world.OutcomeSpec{Outcome: world.Outcome{Kind: world.OutSilentDrop, Name: "silent_drop"}, Class: world.ClsConnLoss}
 		}
